@@ -33,6 +33,7 @@ pub struct S {
     pub stack: Set<GcPtr>, pub wstack: Set<GcPtr>,
     pub hist: Seq<Phase>,
     pub mutated: bool,
+    pub unwinding: bool,
 }
 
 #[verifier::inline]
@@ -45,6 +46,7 @@ pub open spec fn same_ghost(a: S, b: S) -> bool {
     &&& a.dropped =~= b.dropped && a.freed =~= b.freed
     &&& a.edges =~= b.edges && a.root_edges =~= b.root_edges && a.pending =~= b.pending
     &&& a.stack =~= b.stack && a.wstack =~= b.wstack && a.hist =~= b.hist && a.mutated == b.mutated
+    &&& a.unwinding == b.unwinding
 }
 pub open spec fn same_list(a: S, b: S) -> bool { a.all == b.all && a.sweep == b.sweep && a.sweep_prev == b.sweep_prev }
 pub open spec fn same_queues(a: S, b: S) -> bool { a.gray =~= b.gray && a.gray_again =~= b.gray_again }
@@ -229,6 +231,7 @@ pub open spec fn link_rel_heap(pre: S, post: S, p: GcPtr) -> bool {
     &&& post.edges =~= pre.edges.insert(p, pre.pending[p].edges) && post.pending =~= pre.pending.remove(p)
     &&& post.dropped =~= pre.dropped && post.freed =~= pre.freed && post.root_edges =~= pre.root_edges
     &&& post.stack =~= pre.stack && post.wstack =~= pre.wstack && post.hist =~= pre.hist && post.mutated == pre.mutated
+    &&& post.unwinding == pre.unwinding
 }
 pub open spec fn link_rel_list(pre: S, post: S, p: GcPtr) -> bool {
     // the new object becomes the head; during a sweep it must end up in front of the cursor
@@ -279,6 +282,9 @@ pub open spec fn mark_one_pre(s: S) -> bool {
     &&& s.phase == Phase::Mark
     &&& forall|k: int| 0 <= k < s.gray.len() ==> mark_target_ok(s, #[trigger] s.gray[k])
     &&& forall|k: int| 0 <= k < s.gray_again.len() ==> mark_target_ok(s, #[trigger] s.gray_again[k])
+    // (instances of the two lines above for the queue ends, stated as ground facts so that no trigger has to fire in code)
+    &&& (s.gray.len() > 0 ==> mark_target_ok(s, s.gray.last()))
+    &&& (s.gray_again.len() > 0 ==> mark_target_ok(s, s.gray_again.last()))
     &&& edges_pre(s, s.root_edges)
 }
 pub open spec fn mark_target_ok(s: S, p: GcPtr) -> bool {
@@ -319,16 +325,10 @@ pub open spec fn mark_one_rel(pre: S, post: S, r: ControlFlow<()>) -> bool {
 /// the object is Gray and queued again with its trace credit taken back / the root stays flagged
 pub open spec fn unwind_obj_rel(pre: S, post: S, from_gray: bool) -> bool {
     let p = taken(pre, from_gray);
-    // the state just before the guard re-queued p
-    let mid2 = S {
-        objs: post.objs.insert(p, Obj { color: GcColor::Black, ..post.objs[p] }),
-        gray_again: post.gray_again.drop_last(),
-        m: MV { traced: post.m.traced + 1, ..post.m },
-        ..post
-    };
-    &&& can_take(pre, from_gray) && marks_rel(black_state(pre, from_gray), mid2, pre.edges[p])
-    &&& post.gray_again.len() > 0 && post.gray_again.last() == p && post.objs[p].color == GcColor::Gray
-    &&& mid2.objs[p].color == black_state(pre, from_gray).objs[p].color
+    // mid2 = the state in which the trace panicked, just before the guard re-queued p
+    &&& can_take(pre, from_gray)
+    &&& exists|mid2: S| #[trigger] make_gray_again_rel(mid2, post, p) && marks_rel(black_state(pre, from_gray), mid2, pre.edges[p])
+            && mid2.objs[p].color == GcColor::Black
 }
 pub open spec fn mark_one_unwind_rel(pre: S, post: S) -> bool {
     if pre.gray.len() > 0 || pre.gray_again.len() > 0 {
@@ -411,7 +411,7 @@ pub open spec fn sweep_one_rel_metrics(pre: S, post: S) -> bool {
 pub open spec fn sweep_one_rel_frame(pre: S, post: S) -> bool {
     &&& same_queues(pre, post) && same_ctl(pre, post)
     &&& post.root_edges =~= pre.root_edges && post.pending =~= pre.pending && post.stack =~= pre.stack && post.wstack =~= pre.wstack
-    &&& post.hist =~= pre.hist && post.mutated == pre.mutated
+    &&& post.hist =~= pre.hist && post.mutated == pre.mutated && post.unwinding == pre.unwinding
 }
 pub open spec fn sweep_one_rel(pre: S, post: S, r: ControlFlow<()>) -> bool {
     sweep_one_rel_heap(pre, post, r) && sweep_one_rel_list(pre, post, r) && sweep_one_rel_metrics(pre, post) && sweep_one_rel_frame(pre, post)
